@@ -87,7 +87,7 @@ def lengths (segs):
     return np.array ([np.linalg.norm (np.asarray (s.p2, float) - np.asarray (s.p1, float)) for s in segs])
 # end def lengths
 
-def check_taper (g, obj, l, bad, scale):
+def check_taper (g, obj, l, bad, scale, size = 0.0):
     """ taper rules on the segment lengths l of wire spec g (lengths are
         after scaling by `scale`, limits are given before scaling)
     """
@@ -98,9 +98,11 @@ def check_taper (g, obj, l, bad, scale):
     lo   = max (2.5 * r * scale, mn or 0.0)
     hi   = (mx if mx is not None else np.inf)
     tolr = 1e-9
-    if (l < lo * (1 - tolr)).any ():
+    # segment lengths are differences of coordinates: rounding noise scales with the coordinates
+    ta   = 1e-12 * size
+    if (l < lo * (1 - tolr) - ta).any ():
         bad ('taper', 'taper-below-min', 'segment %.6g below max (2.5 r, min) = %.6g (taper %s)' % (l.min (), lo, g ['taper']))
-    if (l > hi * (1 + tolr)).any ():
+    if (l > hi * (1 + tolr) + ta).any ():
         bad ('taper', 'taper-above-max', 'segment %.6g above max = %.6g (taper %s)' % (l.max (), hi, g ['taper']))
     n = len (l)
     if tt == 1:
@@ -110,13 +112,13 @@ def check_taper (g, obj, l, bad, scale):
     else:
         h   = (n + 1) // 2
         seq = [l [:h], l [::-1][:h]]
-        if np.abs (l - l [::-1]).max () > 1e-9 * l.max ():
+        if np.abs (l - l [::-1]).max () > 1e-9 * l.max () + ta:
             bad ('taper', 'taper-asymmetric', 'both-ends taper is not mirror symmetric: %s' % l)
     for s in seq:
-        ratio = s [1:] / s [:-1]
+        ratio = (s [1:] - ta) / (s [:-1] + ta)
         if len (ratio) and (ratio.max () > 2.1 * (1 + tolr)):
             bad ('taper', 'taper-growth', 'growth factor %.4g > 2.1 (taper %s, lengths %s)' % (ratio.max (), g ['taper'], s))
-        if len (ratio) and (ratio.min () < 1 - 1e-9):
+        if len (ratio) and (((s [1:] + ta) / (s [:-1] - ta)).min () < 1 - 1e-9):
             bad ('taper', 'taper-not-monotone', 'lengths shrink away from the tapered end: %s' % s)
 # end def check_taper
 
@@ -177,7 +179,7 @@ def check (spec0):
         if tapered:
             feats.add ('t%d%s%s' % (g ['taper'][0], 'm' if g ['taper'][1] else '', 'M' if g ['taper'][2] else ''))
             mon ['taper'] = mon.get ('taper', 0) + 1
-            check_taper (g, obj, l, bad, scale)
+            check_taper (g, obj, l, bad, scale, size)
             # collinear and ordered along the wire
             d = (o ['nodes'][-1] - o ['nodes'][0]) / L
             for s in segs:
